@@ -31,7 +31,7 @@ class Gen:
             max_t=4, max_m=4, p_nonexcl=0.25, p_nested=0.15, p_struct=0.45, p_alias=0.2,
             p_rel=0.5, p_two_mods=0.2, p_fsm=0.12, p_wit=0.5, p_validate=0.2, p_enable=0.3,
             p_defect=0.0, sched="eager", p_body_in_struct=0.15, rdep_rel=True, nested=True,
-            p_rdyrun=0.0, p_badrun=0.0,
+            p_rdyrun=0.0, p_badrun=0.0, p_chain=0.0,
         )
         self.opt.update(opt)
         self.nin = 0
@@ -130,6 +130,17 @@ class Gen:
                         a, c = c, a
                     self.rels.append(dict(a=a, b=c, kind="before", prio="L",
                                           rdep=o["rdep_rel"] and r.random() < 0.3))
+        # priority chains: t0 - t1 - t2 (- t3) conflict pairwise along a path, the ends do not conflict; with
+        # LEFT/RIGHT priorities the middle transaction sits between its neighbours in the scheduling order, so
+        # "blocked by a neighbour that itself lost" is distinguishable from "blocked by a running neighbour"
+        if o["p_chain"] > 0 and nt >= 3 and r.random() < o["p_chain"]:
+            path = trans[:]
+            r.shuffle(path)
+            path = path[:r.randint(3, len(path))]
+            mode = r.choice(["L", "L", "R", "mixed", "U"])
+            for x, y in zip(path, path[1:]):
+                prio = mode if mode in ("L", "R", "U") else r.choice(["L", "R", "U"])
+                self.rels.append(dict(a=x, b=y, kind="conflict", prio=prio, rdep=False))
         # run-dependent readiness (Forwarder/Pipe style): ready = input | run(a) or input & ~run(a) where a
         # is declared earlier by nesting or schedule_before (rule of C10); p_badrun breaks the rule on purpose
         for b in allb:
